@@ -23,6 +23,7 @@ type c18File struct {
 	symlink   bool
 	txtar     bool
 	roDir     bool
+	unpriv    bool // formatted by an unprivileged user in a directory where that user cannot create files
 	formatted string // filled in by the clean run
 }
 
@@ -53,6 +54,9 @@ func c18Files() []c18File {
 		{name: "crlf.txtar", content: "-- a.evy --\nx := 1\r\nprint x\r\n", mode: 0o644, parses: false, txtar: true},
 		{name: "no-final-newline.evy", content: "x := 1\nprint x", mode: 0o644, parses: true},
 		{name: "trailing-blank.evy", content: "x := 1\nprint x \n", mode: 0o644, parses: true},
+		// a writable file in a directory the user may not create files in (evy runs as `nobody` here): the
+		// temporary file cannot be made, so nothing can be formatted - and nothing may be damaged trying
+		{name: "no-create-dir.evy", content: "n:=1\nif n>0\nprint   n // c\nend\n" + strings.Repeat("print   n n n\n", 600), mode: 0o666, parses: true, unpriv: true},
 	}
 }
 
@@ -137,12 +141,33 @@ func c18Cases(tier string) []c18Case {
 			}
 		}
 	}
+	// the unprivileged shape: a clean run and kills around every file-system call
+	for fi, f := range files {
+		if !f.unpriv {
+			continue
+		}
+		out = append(out, c18Case{file: fi, kind: "clean"})
+		for _, k := range []struct {
+			sys string
+			n   int
+		}{{"openat", 12}, {"write", 6}, {"close", 10}, {"renameat", 2}, {"fchmod", 2}, {"read", 8}, {"ftruncate", 1}, {"unlinkat", 2}} {
+			for w := 1; w <= k.n; w++ {
+				out = append(out, c18Case{file: fi, kind: "kill", sys: k.sys, when: w})
+			}
+		}
+		for w := 1; w <= 4; w++ {
+			out = append(out, c18Case{file: fi, kind: "fault", sys: "write", when: w, errno: "ENOSPC"})
+		}
+	}
 	inSet := map[int]bool{}
 	for _, fi := range fileSet {
 		inSet[fi] = true
 	}
 	for fi, f := range files {
 		if tier != "thorough" && f.name == "big.evy" {
+			continue
+		}
+		if f.unpriv {
 			continue
 		}
 		if !inSet[fi] {
@@ -201,14 +226,58 @@ func c18Prepare(c *core.Ctx, f c18File, dir string) (path string, err error) {
 	if err := os.Chmod(target, f.mode); err != nil {
 		return "", err
 	}
+	if f.unpriv {
+		if err := os.Chown(target, c18Nobody, c18Nobody); err != nil {
+			return "", err
+		}
+		if err := os.Chmod(dir, 0o555); err != nil {
+			return "", err
+		}
+		// every directory above must let the unprivileged user pass
+		for p := filepath.Dir(dir); p != "/" && p != "."; p = filepath.Dir(p) {
+			if st, err := os.Stat(p); err == nil && st.Mode().Perm()&0o011 != 0o011 {
+				_ = os.Chmod(p, st.Mode().Perm()|0o011)
+			}
+		}
+	}
 	return path, nil
 }
+
+const c18Nobody = 65534
+
+// c18UnprivBin copies the evy binary to a place the unprivileged user can execute it from.
+func c18UnprivBin(c *core.Ctx) (string, error) {
+	dst := filepath.Join(c.Tmp, "evy-unpriv")
+	if st, err := os.Stat(dst); err == nil && st.Size() > 0 {
+		return dst, nil
+	}
+	b, err := os.ReadFile(c.EvyBin)
+	if err != nil {
+		return "", err
+	}
+	if err := os.WriteFile(dst, b, 0o755); err != nil {
+		return "", err
+	}
+	return dst, os.Chmod(dst, 0o755)
+}
+
+// c18AsNobody: the traced evy process runs as the unprivileged user `nobody` (strace -u).
+var c18AsNobody bool
 
 func c18Exec(c *core.Ctx, dir string, straceArgs []string, evyArgs ...string) (*c18Result, error) {
 	logPath := filepath.Join(dir, "..", "strace.log")
 	os.Remove(logPath)
 	args := append([]string{"-f", "-o", logPath}, straceArgs...)
-	args = append(args, c.EvyBin)
+	bin := c.EvyBin
+	if c18AsNobody {
+		ub, err := c18UnprivBin(c)
+		if err != nil {
+			return nil, err
+		}
+		bin = ub
+		args = append(args, "-u", "nobody")
+	}
+	args = append(args, bin)
 	args = append(args, evyArgs...)
 	cmd := exec.Command("strace", args...)
 	cmd.Dir = dir
@@ -263,6 +332,12 @@ func c18Run(c *core.Ctx, i int) {
 	cases := c18Cases(c.Tier)
 	cs := cases[i]
 	f := c18Files()[cs.file]
+	if f.unpriv && os.Geteuid() != 0 {
+		c.Event("unprivileged_cases_skipped_not_root", 1)
+		return
+	}
+	c18AsNobody = f.unpriv
+	defer func() { c18AsNobody = false }()
 	dir := filepath.Join(c.Tmp, "c18work")
 	path, err := c18Prepare(c, f, dir)
 	if err != nil {
@@ -314,7 +389,12 @@ func c18Run(c *core.Ctx, i int) {
 		c.Distinct(desc)
 		c.Event("syscalls_in_clean_run", strings.Count(res.straceLog, "\n"))
 		judge(res, "clean run")
-		if f.parses && (res.exit != 0 || res.content != formatted) {
+		if f.unpriv {
+			c.Event("unprivileged_runs", 1)
+			if res.exit == 0 && res.content == f.content {
+				c.Violation("failure-not-reported:clean:", "clean run as an unprivileged user in a directory without create permission: exit 0 but nothing was formatted", desc, nil)
+			}
+		} else if f.parses && (res.exit != 0 || res.content != formatted) {
 			c.Violation("clean-run-failed", fmt.Sprintf("clean run: exit %d, formatted=%v, stderr %q", res.exit, res.content == formatted, res.stderr), desc, nil)
 		}
 		_ = cleanExit
@@ -348,6 +428,9 @@ func c18Run(c *core.Ctx, i int) {
 		} else {
 			c.Event("faults_fired", 1)
 			c.Cover("fault", cs.sys+":"+cs.errno)
+		}
+		if f.unpriv {
+			c.Event("unprivileged_runs", 1)
 		}
 		judge(res, cs.kind+" "+inj)
 	case "rerun":
